@@ -740,6 +740,12 @@ class Interp:
                 fn = self.models.get(o.kind + "." + name)
                 if fn is not None:
                     return BoundModel(o, fn, o.kind + "." + name)
+                if o.kind.startswith("recorder:"):
+                    def rec(interp, obj, *a, _n=name, **k):
+                        obj.attrs["__calls__"].append((_n, a, k))
+                        h = obj.attrs.get("__handler__")
+                        return h(_n, a, k) if h else None
+                    return BoundModel(o, rec, o.kind + "." + name)
             raise PyExc("AttributeError", "'%s' object has no attribute '%s'" % (o.cls.name if o.cls else o.kind, name))
         if isinstance(o, ModuleRef):
             g = o.module().globals
